@@ -11,5 +11,5 @@ CONSTANTS
   SwitchFaithful = TRUE
   ClosePatient = TRUE
   TrimMayFail = FALSE
-INVARIANTS ConformRet ConformDisk ConformMem ConformDown AtMostOnceForward AtMostOneResponse RestartExact OpenedConsistent OpenedSubsetPending OneRecordPerKey OneCircuitPerOut MemDiskAgree ClosedSubset
+INVARIANTS ConformNote ConformRet ConformDisk ConformMem ConformDown AtMostOnceForward AtMostOneResponse RestartExact OpenedConsistent OpenedSubsetPending OneRecordPerKey OneCircuitPerOut MemDiskAgree ClosedSubset
 CHECK_DEADLOCK TRUE
